@@ -4,7 +4,7 @@ import random
 import world_check as wk
 import world_common as wc
 
-MON = ["faithful", "journal", "store_immutable", "fault_reported", "no_error"]
+MON = ["faithful", "history", "journal", "store_immutable", "fault_reported", "no_error"]
 
 
 def main(rep):
@@ -14,11 +14,17 @@ def main(rep):
     for i in range(n):
         t, m = wc.gen_copy_case(rng)
         cases.append(("f%d" % i, t, m))
+    for i in range(n // 3):
+        # history paths: each version is the appended slice, also when the wanted name is taken (several versions
+        # inside one timestamp) and across restarts
+        t, m = wc.gen_history_case(rng)
+        cases.append(("h%d" % i, t, m))
     wk.standard_main(rep, cases=cases, monitors=MON,
                      rule=("three files per history with sizes from {0,1,2,4095,4096,4097,12345,70000}, sendfile chunk limits {none,1000,4095,4096,4097,65536}, "
                            "and between the write and the copy: nothing, rewritten, grown, deleted, replaced by a directory, made unreadable (real EACCES: the "
                            "driver runs unprivileged); monitors: every new version equals its source byte for byte (length + hash), an abandoned copy leaves no "
-                           "file and no empty directory, journal labels stored/deleted/forbidden match what appeared"))
+                           "file and no empty directory, journal labels stored/deleted/forbidden match what appeared; plus append histories of a history path (slices of 0-60 bytes, several versions inside one "
+                           "timestamp, restarts): the versions in order concatenate to the file up to the remembered position"))
 
 
 def replay(rep, path):
